@@ -155,6 +155,37 @@ CLAIMS = {
         "findings: split(d, d) re-indents indented docstrings; ReST footer absorbed into the last type. Axioms: none.",
         "6 (C15)",
     ),
+    "C16": (
+        "Coq proof by induction over the entry list (invariant: every $ref of every path item and request body is defined) of a "
+        "complete model of cdd.compound.openapi.emit.openapi, tied to the code by exact JSON comparison; refutation theorem for "
+        "openapi_bulk's component key; observation of gen_routes -> upsert_routes -> openapi_bulk",
+        "C16_closed_emit: for every list of (name, model, route, id, crud) entries -- any names, repeated names, colliding routes -- "
+        "every $ref string anywhere in the emitted document resolves to a schema / request body defined in it; C16_crud_exact: the "
+        "operations are exactly POST on the collection for C, GET / DELETE on the item for R / D; C16_path_params_declared. The "
+        "model is compared as JSON with emit.openapi on generated entries each run (0 disagreements required). For openapi_bulk only "
+        "the component-key derivation is modelled and C16_bulk_key_refuted shows it breaks closure for multi-word names (known "
+        "finding); bulk documents are checked by running gen_routes/upsert_routes/openapi_bulk on generated SQLAlchemy models, "
+        "including one single-model CRD job under 8 (quick) / 32 (thorough) hash seeds. Route parsing and 'routes fed back describe "
+        "the same model' are observed only: partial.",
+        "Trusted: Coq kernel; extraction + driver; harness JSON adapters. Known findings: multi-word names dangle; a second model in "
+        "one routes file loses operations. Axioms: none.",
+        "6 (C16)",
+    ),
+    "C06": (
+        "Coq proofs over all parameter lists of a model of param2json_schema_property / json_schema_property_to_param (required iff "
+        "not Optional; emit->parse round trip with sorted Literal members; defaults validate; pattern accepts every member; refutation "
+        "of 'exactly the members'), tied by field-by-field comparison; meta-schema validity by the reference validator",
+        "C06_required_iff (every parameter list), C06_roundtrip (every parameter of the domain: base types, Literal[str..] over "
+        "letters/digits/_-. and space, Optional of those; NoDup names), C06_default_validates, C06_pattern_accepts_members are "
+        "proved of Model/JsonSchema.v; C06_pattern_exact_refuted exhibits a non-member accepted by the unanchored pattern (known "
+        "finding). Each run compares emitted properties, the required list and the parsed-back parameters with the extracted model "
+        "on generated IRs (0..8 parameters) and evaluates the property on the implementation; draft 2020-12 validity, default "
+        "validation and pattern behaviour are checked with jsonschema.Draft202012Validator in python3-vt on every emitted schema -- "
+        "validity has no theorem: partial.",
+        "Trusted: Coq kernel; extraction + driver; jsonschema 4.x as the meaning of 'valid'; the top-level description string is not "
+        "modelled. Fixed: null description (252f2c6). Known: single-member Literal raises; unanchored pattern. Axioms: none.",
+        "6 (C06)",
+    ),
 }
 
 NOT_YET = "check not built yet in this development (DESIGN.md section 8 gives the order of work)"
